@@ -254,4 +254,161 @@ theorem tp_refinesL (c : Cur) (g : Mem) (pl : IpPl) (ctx : Ctx) (k : Nat)
             rw [walkN_next true g k _ _ _ _ _ _ (by simp) hstep, walkN_done]
             exact relLax_ok hst
 
+theorem macsec_stepL (g : Mem) (hg : ByteMem g) (p : Packet) (ctx : Ctx) (o l : Nat) (hc : ctx.off = o)
+    (hs : ctx.stop = o + l) (hn : ctx.nExt ≠ 3) :
+    match laxMacsecFromSlice g o l with
+    | .ok (.macsec hdr pl src inc) =>
+      Spec.step true g p (.ether 0x88e5) ctx =
+        ⟨p.pushExt (.macsec hdr pl src inc),
+          (match macsecNextEtherType g o with | some et' => .ether et' | none => .done),
+          { off := pl.o, stop := pl.o + pl.l, lim := inherit ctx.lim src, nExt := ctx.nExt + 1 }, none⟩ ∧
+        pl.o = o + hdr.l ∧ o ≤ pl.o ∧ pl.o + pl.l ≤ o + l ∧ (src = .slice ∨ src = .macsecShortLength)
+    | .ok _ => False
+    | .error (.len e) =>
+      ∃ f, Spec.step true g p (.ether 0x88e5) ctx = ⟨p, .done, ctx, some f⟩ ∧ LenRel e f o ctx.lim ∧
+        e.layer = .macsecHeader ∧ f.unit = .macsecHeader
+    | .error e => ∃ f, Spec.step true g p (.ether 0x88e5) ctx = ⟨p, .done, ctx, some f⟩ ∧ ContentMatch e f ∧
+        f.unit = .macsecHeader := by
+  have hav : ctx.avail = l := by unfold Ctx.avail; omega
+  have hb0 := hg o
+  unfold laxMacsecFromSlice macsecHeaderFromSlice
+  simp only [Spec.step, hav, hc, isVlanType]
+  simp only [show ¬ ((0x88e5 : Nat) = 0x8100 ∨ (0x88e5 : Nat) = 0x88a8 ∨ (0x88e5 : Nat) = 0x9100) by omega,
+    decide_false, Bool.false_eq_true, if_false, if_true, hn]
+  by_cases h6 : l < 6
+  · simp only [h6, if_true]
+    exact ⟨_, rfl, by lenrel, by first | rfl | trivial, by first | rfl | trivial⟩
+  · simp only [h6, if_false]
+    by_cases hv : g o / 128 % 2 = 1
+    · have hv' : g o / 128 = 1 := by omega
+      simp only [hv, hv', if_true]
+      exact ⟨_, rfl, ⟨by simp [mkFault], by simp [mkFault]⟩, rfl⟩
+    · have hv' : ¬ g o / 128 = 1 := by omega
+      simp only [hv, hv', if_false]
+      have hsl : g (o + 1) % 64 < 64 := Nat.mod_lt _ (by omega)
+      generalize hslv : g (o + 1) % 64 = sl at *
+      by_cases hU : macsecUnmodified (g o) = true
+      · have hUs : (g o / 8 % 2 = 0 ∧ g o / 4 % 2 = 0) := (macsec_unmod_eq (g o)).mp hU
+        by_cases hS : macsecSciPresent (g o) = true
+        · have hSs : g o / 32 % 2 = 1 := by simpa [macsecSciPresent] using hS
+          simp only [macsecHeaderLen, secTagLen, macsecExpectedPayloadLen, macsecNextEtherType, hU, hS, hUs, hSs, hslv,
+                and_self, true_and, and_true, and_false, false_and, decide_true, decide_false, if_true, not_true_eq_false, not_false_eq_true, if_false,
+                Bool.false_eq_true]
+          by_cases h1 : sl = 1
+          · simp only [h1, if_true]
+            exact ⟨_, rfl, ⟨by simp [mkFault], by simp [mkFault]⟩, rfl⟩
+          · simp only [h1, if_false]
+            by_cases hlt : l < 6 + 2 + 8
+            · have : l < 6 + 8 + 2 := by omega
+              simp only [hlt, this, if_true]
+              exact ⟨_, rfl, by lenrel, by first | rfl | trivial, by first | rfl | trivial⟩
+            · have : ¬ l < 6 + 8 + 2 := by omega
+              simp only [hlt, this, if_false]
+              by_cases h0 : sl = 0
+              · subst h0
+                have e1 : o + l - (o + 16) = l - 16 := by omega
+                simp [addExt_eq, hs, inherit, e1]
+                omega
+              · have hpos : 0 < sl := by omega
+                have h2 : ¬ sl < 2 := by omega
+                simp only [hpos, h0, h2, if_true, if_false]
+                by_cases hp : l < 6 + 2 + 8 + (sl - 2)
+                · have : l < 6 + 8 + 2 + (sl - 2) := by omega
+                  simp only [hp, this, if_true]
+                  have e1 : o + l - (o + 16) = l - 16 := by omega
+                  simp [addExt_eq, hs, inherit, e1]
+                  omega
+                · have : ¬ l < 6 + 8 + 2 + (sl - 2) := by omega
+                  simp only [hp, this, if_false]
+                  simp [addExt_eq, inherit]
+                  try omega
+        · have hSs : ¬ g o / 32 % 2 = 1 := by simpa [macsecSciPresent] using hS
+          simp only [macsecHeaderLen, secTagLen, macsecExpectedPayloadLen, macsecNextEtherType, hU, hS, hUs, hSs, hslv,
+                and_self, true_and, and_true, and_false, false_and, decide_true, decide_false, if_true, not_true_eq_false, not_false_eq_true, if_false,
+                Bool.false_eq_true]
+          by_cases h1 : sl = 1
+          · simp only [h1, if_true]
+            exact ⟨_, rfl, ⟨by simp [mkFault], by simp [mkFault]⟩, rfl⟩
+          · simp only [h1, if_false]
+            by_cases hlt : l < 6 + 2 + 0
+            · have : l < 6 + 0 + 2 := by omega
+              simp only [hlt, this, if_true]
+              exact ⟨_, rfl, by lenrel, by first | rfl | trivial, by first | rfl | trivial⟩
+            · have : ¬ l < 6 + 0 + 2 := by omega
+              simp only [hlt, this, if_false]
+              by_cases h0 : sl = 0
+              · subst h0
+                have e1 : o + l - (o + 8) = l - 8 := by omega
+                simp [addExt_eq, hs, inherit, e1]
+                omega
+              · have hpos : 0 < sl := by omega
+                have h2 : ¬ sl < 2 := by omega
+                simp only [hpos, h0, h2, if_true, if_false]
+                by_cases hp : l < 6 + 2 + 0 + (sl - 2)
+                · have : l < 6 + 0 + 2 + (sl - 2) := by omega
+                  simp only [hp, this, if_true]
+                  have e1 : o + l - (o + 8) = l - 8 := by omega
+                  simp [addExt_eq, hs, inherit, e1]
+                  omega
+                · have : ¬ l < 6 + 0 + 2 + (sl - 2) := by omega
+                  simp only [hp, this, if_false]
+                  simp [addExt_eq, inherit]
+                  try omega
+      · have hUs : ¬ (g o / 8 % 2 = 0 ∧ g o / 4 % 2 = 0) := fun h => hU ((macsec_unmod_eq (g o)).mpr h)
+        by_cases hS : macsecSciPresent (g o) = true
+        · have hSs : g o / 32 % 2 = 1 := by simpa [macsecSciPresent] using hS
+          simp only [macsecHeaderLen, secTagLen, macsecExpectedPayloadLen, macsecNextEtherType, hU, hS, hUs, hSs, hslv,
+                and_self, true_and, and_true, and_false, false_and, decide_true, decide_false, if_true, not_true_eq_false, not_false_eq_true, if_false,
+                Bool.false_eq_true]
+          by_cases hlt : l < 6 + 0 + 8
+          · have : l < 6 + 8 + 0 := by omega
+            simp only [hlt, this, if_true]
+            exact ⟨_, rfl, by lenrel, by first | rfl | trivial, by first | rfl | trivial⟩
+          · have : ¬ l < 6 + 8 + 0 := by omega
+            simp only [hlt, this, if_false]
+            by_cases h0 : sl = 0
+            · subst h0
+              have e1 : o + l - (o + 14) = l - 14 := by omega
+              simp [addExt_eq, hs, inherit, e1]
+              omega
+            · have hpos : 0 < sl := by omega
+              simp only [hpos, h0, if_true, if_false]
+              by_cases hp : l < 6 + 0 + 8 + sl
+              · have : l < 6 + 8 + 0 + sl := by omega
+                simp only [hp, this, if_true]
+                have e1 : o + l - (o + 14) = l - 14 := by omega
+                simp [addExt_eq, hs, inherit, e1]
+                omega
+              · have : ¬ l < 6 + 8 + 0 + sl := by omega
+                simp only [hp, this, if_false]
+                simp [addExt_eq, inherit]
+                try omega
+        · have hSs : ¬ g o / 32 % 2 = 1 := by simpa [macsecSciPresent] using hS
+          simp only [macsecHeaderLen, secTagLen, macsecExpectedPayloadLen, macsecNextEtherType, hU, hS, hUs, hSs, hslv,
+                and_self, true_and, and_true, and_false, false_and, decide_true, decide_false, if_true, not_true_eq_false, not_false_eq_true, if_false,
+                Bool.false_eq_true]
+          by_cases hlt : l < 6 + 0 + 0
+          · have : l < 6 + 0 + 0 := by omega
+            simp only [hlt, this, if_true]
+            exact ⟨_, rfl, by lenrel, by first | rfl | trivial, by first | rfl | trivial⟩
+          · have : ¬ l < 6 + 0 + 0 := by omega
+            simp only [hlt, this, if_false]
+            by_cases h0 : sl = 0
+            · subst h0
+              have e1 : o + l - (o + 6) = l - 6 := by omega
+              simp [addExt_eq, hs, inherit, e1]
+              omega
+            · have hpos : 0 < sl := by omega
+              simp only [hpos, h0, if_true, if_false]
+              by_cases hp : l < 6 + 0 + 0 + sl
+              · have : l < 6 + 0 + 0 + sl := by omega
+                simp only [hp, this, if_true]
+                have e1 : o + l - (o + 6) = l - 6 := by omega
+                simp [addExt_eq, hs, inherit, e1]
+                omega
+              · have : ¬ l < 6 + 0 + 0 + sl := by omega
+                simp only [hp, this, if_false]
+                simp [addExt_eq, inherit]
+                try omega
+
 end EpModel.Lemmas.RefineLax
